@@ -1,0 +1,121 @@
+//go:build verif
+
+// Contracts for package handler, checked by /verif/govc (see /verif/DESIGN.md).
+// This file contains only comments; it is compiled only with -tags verif and
+// has no effect on the package.
+//
+// A clause tagged [Cxx,...] takes part only in the proofs of those properties
+// (and of the properties that build on them); an untagged clause is shared
+// support.  requires[C07] marks a panic guard.
+
+package handler
+
+//@ define HandlerInv(h) = isUTC(h.startOfGPSWeek.loc) && isUTC(h.startOfGalileoWeek.loc) && isUTC(h.startOfGlonassWeek.loc) && isUTC(h.startOfBeidouWeek.loc)
+
+//@ type Handler
+//@ invariant HandlerInv(self)
+
+//@ func CheckCRC
+//@ ensures[C01,C03,C12] (result == nil) == (len(frame) >= 6 && crcok(frame))
+//@ ensures[C02] result != nil ==> errmsg(result) != "done"
+
+//@ func (*Handler).getMessageLengthAndType
+//@ ensures (r2 == nil) == leaderOK(bitStream)
+//@ ensures r2 == nil ==> r0 == bits(bitStream, 14, 10) && r1 == bits(bitStream, 24, 12)
+//@ ensures r0 <= 1023 && (r2 == nil ==> r0 >= 1 && len(bitStream) >= 5) && (r2 != nil ==> r0 == 0)
+//@ ensures r2 != nil ==> r1 == -1 || (len(bitStream) >= 5 && bits(bitStream, 14, 10) == 0 && r1 == bits(bitStream, 24, 12))
+//@ ensures[C02] r2 != nil ==> errmsg(r2) != "done"
+
+//@ func (*Handler).GetMessage
+//@ requires[C07] rtcmHandler != nil
+//@ modifies rtcmHandler
+//@ ensures[C01] r0 != nil && r0.MessageType >= 0 && r1 == nil ==> ValidFrame(r0.RawData) && r0.MessageType == bits(r0.RawData, 24, 12)
+//@ ensures[C01] r0 != nil && r0.MessageType >= 0 && !(len(bitStream) >= 5 && bits(bitStream, 14, 10) == 0) ==> ValidFrame(r0.RawData) && r0.MessageType == bits(r0.RawData, 24, 12)
+//@ ensures[C02] r1 != nil ==> errmsg(r1) != "done"
+//@ ensures[C02] len(bitStream) > 0 ==> r0 != nil && fresh(r0)
+//@ ensures[C02] r0 != nil ==> arrof(r0.RawData) == arrof(bitStream) && offof(r0.RawData) == offof(bitStream)
+//@ ensures[C02] r0 != nil ==> len(r0.RawData) == len(bitStream) || (leaderOK(bitStream) && len(r0.RawData) == bits(bitStream, 14, 10) + 6 && len(r0.RawData) < len(bitStream))
+//@ ensures[C03] ValidFrame(bitStream) ==> r0 != nil && r0.MessageType == bits(bitStream, 24, 12)
+//@ ensures[C03,C12] leaderOK(bitStream) && len(bitStream) <= bits(bitStream, 14, 10) + 6 && !ValidFrame(bitStream) ==> r0 != nil && r0.MessageType == -1
+
+//@ func (Handler).getTimeDisplayFromTimestamp
+//@ ensures[C02] r1 != nil ==> errmsg(r1) != "done"
+
+//@ func (Handler).getStartTimeDisplay
+
+//@ func eatUntilStartOfFrame
+//@ requires[C07] pc != nil && pc.byteChan != nil
+//@ modifies pc.pushBackBuffer, recv(pc.byteChan)
+//@ ensures fresh(r0)
+//@ ensures[C02] seqeq(r0, pc.I, old(pc.cur), pc.cur) && pc.cur >= old(pc.cur) && pc.cur <= pc.N
+//@ ensures[C03] forall(k, old(pc.cur), pc.cur - 1, pc.I[k] != 0xd3)
+//@ ensures[C02] r1 == nil ==> pc.cur > old(pc.cur) && pc.I[pc.cur-1] == 0xd3
+//@ ensures[C02] r1 != nil ==> pc.cur == pc.N && errmsg(r1) == "done"
+//@ ensures[C03] r1 != nil && pc.cur > old(pc.cur) ==> pc.I[pc.cur-1] != 0xd3
+//@ ensures[C02] pc.pbn == ite(old(pc.pbn) > pc.cur - old(pc.cur), old(pc.pbn) - (pc.cur - old(pc.cur)), 0)
+//@ loop 1
+//@ invariant fresh(stuff)
+//@ invariant[C02,C07] pc.cur <= pc.N
+//@ invariant[C02] seqeq(stuff, pc.I, old(pc.cur), pc.cur) && pc.cur >= old(pc.cur)
+//@ invariant[C03] forall(k, old(pc.cur), pc.cur, pc.I[k] != 0xd3)
+//@ invariant[C02] pc.pbn == ite(old(pc.pbn) > pc.cur - old(pc.cur), old(pc.pbn) - (pc.cur - old(pc.cur)), 0)
+//@ decreases pc.N - pc.cur
+
+//@ func (*Handler).FetchNextMessageFrame
+//@ requires[C07] rtcmHandler != nil && pc != nil && pc.byteChan != nil
+//@ requires[C02] pc.pbn <= 1
+//@ let c0 = pc.cur
+//@ let I = pc.I
+//@ let N = pc.N
+//@ modifies rtcmHandler, pc.pushBackBuffer, recv(pc.byteChan), elems(pc.pushBackBuffer)
+//@ ensures[C02] pc.pbn <= 1 && pc.cur <= N && pc.cur >= c0
+//@ ensures[C02] r0 == nil ==> c0 == N && r1 != nil && errmsg(r1) == "done" && pc.cur == c0
+//@ ensures[C02] r0 != nil ==> pc.cur > c0 && seqeq(r0.RawData, I, c0, pc.cur) && fresh(r0) && (r1 == nil || errmsg(r1) != "done")
+//@ ensures[C01] r0 != nil && r0.MessageType >= 0 ==> ValidFrame(r0.RawData) && r0.MessageType == bits(r0.RawData, 24, 12)
+//@ ensures[C03] r0 != nil ==> SegJunk(I, N, c0, pc.cur, r0.MessageType)
+//@ ensures[C03] r0 != nil ==> SegFrame(I, N, c0, pc.cur, r0.MessageType)
+//@ ensures[C03] r0 != nil ==> SegTrunc(I, N, c0, pc.cur, r0.MessageType)
+//@ ensures[C12] r0 != nil ==> SegCorrupt(I, N, c0, pc.cur, r0.MessageType)
+//@ loop 1
+//@ invariant 1 <= i && i <= 5 && fresh(frame)
+//@ invariant[C02] len(frame) == i && pc.cur == c0 + i && pc.pbn == 0 && pc.cur <= N
+//@ invariant[C02] seqeq(frame, I, c0, pc.cur)
+//@ invariant[C03,C12] eatError == nil ==> I[c0] == 0xd3
+//@ invariant[C03,C12] eatError != nil ==> pc.cur == N && I[c0] != 0xd3
+//@ decreases 5 - i
+//@ loop 2
+//@ invariant 0 <= i && fresh(frame) && len(frame) >= 5
+//@ invariant[C01] bits(frame, 14, 10) == messageLength
+//@ invariant[C02] i <= wantBytes && len(frame) == 5 + i && pc.cur == c0 + 5 + i && pc.pbn == 0 && pc.cur <= N
+//@ invariant[C02] seqeq(frame, I, c0, pc.cur)
+//@ invariant[C03,C12] leaderAt(I, N, c0) && messageLength == lenAt(I, c0)
+//@ decreases wantBytes - i
+
+// HandleMessages: the stamp records, with every message sent, the position of
+// the input cursor after that message; consecutive stamps therefore delimit the
+// input bytes each message carries (the tiling of the input).
+//@ func (*Handler).HandleMessages
+//@ requires[C07] rtcmHandler != nil && ch_in != nil && ch_out != nil
+//@ requires ch_in != ch_out && !closed(ch_out)
+//@ let I = feed(ch_in)
+//@ let N = feedlen(ch_in)
+//@ let s0 = recvd(ch_in)
+//@ let n0 = sentn(ch_out)
+//@ modifies rtcmHandler, recv(ch_in), sent(ch_out), closed(ch_out)
+//@ stamp ch_out: pb.cur
+//@ ensures[C02] closed(ch_out) && recvd(ch_in) == N && sentn(ch_out) >= n0
+//@ ensures[C02] ite(sentn(ch_out) == n0, s0, stamp(ch_out)[sentn(ch_out)-1]) == N
+//@ ensures[C02] forall(k, n0, sentn(ch_out), tile(sent(ch_out)[k].RawData, I, ite(k == n0, s0, stamp(ch_out)[k-1]), stamp(ch_out)[k]))
+//@ ensures[C01] forall(k, n0, sentn(ch_out), sent(ch_out)[k].MessageType >= 0 ==> ValidFrame(sent(ch_out)[k].RawData) && sent(ch_out)[k].MessageType == bits(sent(ch_out)[k].RawData, 24, 12))
+//@ ensures[C03] forall(k, n0, sentn(ch_out), SegJunk(I, N, ite(k == n0, s0, stamp(ch_out)[k-1]), stamp(ch_out)[k], sent(ch_out)[k].MessageType) && SegFrame(I, N, ite(k == n0, s0, stamp(ch_out)[k-1]), stamp(ch_out)[k], sent(ch_out)[k].MessageType) && SegTrunc(I, N, ite(k == n0, s0, stamp(ch_out)[k-1]), stamp(ch_out)[k], sent(ch_out)[k].MessageType))
+//@ ensures[C12] forall(k, n0, sentn(ch_out), SegCorrupt(I, N, ite(k == n0, s0, stamp(ch_out)[k-1]), stamp(ch_out)[k], sent(ch_out)[k].MessageType))
+//@ loop 1
+//@ invariant HandlerInv(rtcmHandler)
+//@ invariant pb != nil && fresh(pb) && !closed(ch_out) && sentn(ch_out) >= n0 && pb.byteChan == ch_in
+//@ invariant[C02,C07] pb.pbn <= 1 && pb.cur <= N
+//@ invariant[C02] pb.cur == ite(sentn(ch_out) == n0, s0, stamp(ch_out)[sentn(ch_out)-1])
+//@ invariant[C02] forall(k, n0, sentn(ch_out), tile(sent(ch_out)[k].RawData, I, ite(k == n0, s0, stamp(ch_out)[k-1]), stamp(ch_out)[k]))
+//@ invariant[C01] forall(k, n0, sentn(ch_out), sent(ch_out)[k].MessageType >= 0 ==> ValidFrame(sent(ch_out)[k].RawData) && sent(ch_out)[k].MessageType == bits(sent(ch_out)[k].RawData, 24, 12))
+//@ invariant[C03] forall(k, n0, sentn(ch_out), SegJunk(I, N, ite(k == n0, s0, stamp(ch_out)[k-1]), stamp(ch_out)[k], sent(ch_out)[k].MessageType) && SegFrame(I, N, ite(k == n0, s0, stamp(ch_out)[k-1]), stamp(ch_out)[k], sent(ch_out)[k].MessageType) && SegTrunc(I, N, ite(k == n0, s0, stamp(ch_out)[k-1]), stamp(ch_out)[k], sent(ch_out)[k].MessageType))
+//@ invariant[C12] forall(k, n0, sentn(ch_out), SegCorrupt(I, N, ite(k == n0, s0, stamp(ch_out)[k-1]), stamp(ch_out)[k], sent(ch_out)[k].MessageType))
+//@ decreases N - pb.cur
